@@ -6,7 +6,7 @@ CONSTANT HapLen = 3
 CONSTANT MaxAlt = 2
 CONSTANT Ploidies <- HaploDiploid
 CONSTANT GTOrdered = TRUE
-CONSTANT Modes <- TwoModes
+CONSTANT Modes <- OneMode
 INVARIANT TypeOK
 INVARIANT LinesAreProjections
 INVARIANT OneLinePerSite
